@@ -27,6 +27,9 @@ Exposed(m) == IF m.name = "own" THEN m.fn ELSE m.name
 DistinctNames(s) == \A i, j \in DOMAIN s : i # j => ~(Exposed(s[i]) = Exposed(s[j]) /\ s[i].ep = s[j].ep)
 S(k, x, p, ms) == [kind |-> k, extractor |-> x, prefix |-> p, statusmap |-> "none", plan |-> "same", methods |-> ms]
 SH(s) == [s EXCEPT !.plan = "shrink"]
+GR(s) == [s EXCEPT !.plan = "grow"]
+InitGrow == \E k \in Kinds : \E x \in Extractors(k), m1 \in {M("f1", "root", "own", "t1", "none"), M("f4", "root", "unset", "none", "none")} :
+               InitWith(GR(S(k, x, "none", <<m1, M("f5", "root", "unset", "none", "none")>>)))
 SM(s) == [s EXCEPT !.statusmap = "map"]
 InitN(A, n) == \E k \in Kinds : \E x \in Extractors(k), p \in {"none", "rpc"} :
                  \/ \E m1 \in MethodAlpha : InitWith(S(k, x, p, <<m1>>))
@@ -39,6 +42,6 @@ InitMap == \E k \in {"openapi31"}, x \in {"pyd"}, p \in {"none", "rpc"} :
               \/ \E m1 \in MethodSmall : InitWith(SM(S(k, x, p, <<m1>>)))
               \/ \E m1 \in MethodSmall \cup MapExtra, m2 \in {M("f3", "root", "own", "t1", "none"), M("f2", "api", "shared", "none", "P_")} \cup MapExtra :
                     DistinctNames(<<m1, m2>>) /\ InitWith(SM(S(k, x, p, <<m1, m2>>)))
-InitQuick == InitN(MethodSmall, 2) \/ InitMap
-InitThorough == InitN(MethodSmall, 3) \/ InitMap
+InitQuick == InitN(MethodSmall, 2) \/ InitMap \/ InitGrow
+InitThorough == InitN(MethodSmall, 3) \/ InitMap \/ InitGrow
 =============================================================================
